@@ -245,6 +245,7 @@ func (H) Execute(scAny any, cfg simrt.Config, st *core.Stats) (*simrt.Outcome, *
 	var res result
 	logs := make([]peerLog, len(sc.Peers))
 	var cancelAt, closeAt int64 = -1, -1
+	cfg.StopWhenClientsDone = true // goroutines of the implementation itself (none on the pinned tree) do not keep a run alive
 	s := simrt.New(cfg)
 	s.Go(func() {
 		if sc.Closed {
